@@ -56,10 +56,21 @@ class Model:
         return i
 
 
-def cheap_block(dt, sg, height, prev, n):
+TARGETS = [b"\xff" * 32, b"\x00" + b"\xff" * 31, b"\x00\x00" + b"\xff" * 30, b"\x7f" + b"\xff" * 31, b"\x00" * 31 + b"\x01"]
+
+
+def target_of(n, tseed):
+    """stated target of the n-th arrival: the same for all blocks (tseed None), or varying from block to block -- as between
+    the two sides of a fork that crosses a retarget boundary; this version measures work as height whatever the targets"""
+    if tseed is None:
+        return TARGETS[0]
+    return random.Random(tseed * 1000003 + n).choice(TARGETS)
+
+
+def cheap_block(dt, sg, height, prev, n, target=b"\xff" * 32):
     cb = dt.Transaction([dt.Input(dt.OutputReference(b"\x00" * 32, 0), sg.CoinbaseData(height, b"%d" % n))],
                         [dt.Output(10, sg.SECP256k1PublicKey(b"\x01" * 64))])
-    return dt.Block(dt.BlockHeader(dt.BlockSummary(height, prev, b"\x00" * 32, 1615757105 + n, b"\xff" * 32, n),
+    return dt.Block(dt.BlockHeader(dt.BlockSummary(height, prev, b"\x00" * 32, 1615757105 + n, target, n),
                                    dt.PowEvidence(b"\x00" * 32, b"\x00" * 32, b"\x00" * 32)), [cb])
 
 
@@ -164,7 +175,7 @@ def unrle(r):
     return out
 
 
-def run_vector(chk, mods, parents, mode="cheap", sampled=None):
+def run_vector(chk, mods, parents, mode="cheap", sampled=None, tseed=None):
     """parents: list p[1..n] (index 0 = genesis)"""
     CoinState, dt, sg = mods
     model = Model()
@@ -173,10 +184,13 @@ def run_vector(chk, mods, parents, mode="cheap", sampled=None):
     blocks = {0: cs.block_by_hash[ids[0]]}
     w = {"kind": "vector", "parents": list(parents)} if len(parents) <= 450 else {"kind": "vector", "parents_rle": rle(parents)}
     chk.c["histories"] += 1
-    chk.digests.add(digest(tuple(parents)))
+    if tseed is not None:
+        w["target_seed"] = tseed
+        chk.c["histories_with_varying_targets"] = chk.c.get("histories_with_varying_targets", 0) + 1
+    chk.digests.add(digest(tuple(parents), tseed))
     for n, p in enumerate(parents, start=1):
         i = model.add(p)
-        blk = cheap_block(dt, sg, model.height[i], ids[p], n)
+        blk = cheap_block(dt, sg, model.height[i], ids[p], n, target_of(n, tseed))
         prev = cs
         try:
             cs = cs.add_block_no_validation(blk)
@@ -248,9 +262,9 @@ def run_shard(spec):
     if "replay" in spec:
         w = spec["replay"]
         if "parents_rle" in w:
-            run_vector(chk, mods, unrle(w["parents_rle"]), sampled=random.Random(1))
+            run_vector(chk, mods, unrle(w["parents_rle"]), sampled=random.Random(1), tseed=w.get("target_seed"))
         elif w.get("kind") == "vector" or "parents" in w:
-            run_vector(chk, mods, w["parents"])
+            run_vector(chk, mods, w["parents"], tseed=w.get("target_seed"))
         return {"evaluations": chk.c["arrivals_checked"], "digests": sorted(chk.digests), "violations": chk.viol,
                 "counters": chk.c}
     quick = spec["tier"] == "quick"
@@ -260,6 +274,7 @@ def run_shard(spec):
         for vec in itertools.product(*[range(i) for i in range(1, n + 1)]):
             if k % spec["nshard"] == spec["shard"]:
                 run_vector(chk, mods, vec)
+                run_vector(chk, mods, vec, tseed=k % 7)
             k += 1
     rng = random.Random("c04/%d/%d" % (spec["seed"], spec["shard"]))
     samples = []
@@ -280,7 +295,7 @@ def run_shard(spec):
                 vec.append(max(0, i - 1 - rng.choice([0, 0, 0, 1, 2])))
             else:
                 vec.append(max(0, i - 2) if i > 2 else 0)
-        run_vector(chk, mods, vec)
+        run_vector(chk, mods, vec, tseed=rng.choice([None, 1, 2, 3]))
     # long histories: a main chain of length H, then a branch forking `depth` blocks below the head that grows until it
     # overtakes (deep reorganisations; only cheap un-mined blocks, sampled index checks)
     for j in range(3 if quick else 30):
@@ -320,12 +335,14 @@ def finalize(m, tier):
     import math
     total = sum(math.factorial(n) for n in range(1, nmax + 1))
     return {
-        "rule": "history = parent vector over arrival order; ALL n! vectors for every n <= %d new blocks (un-mined blocks, "
+        "rule": "history = parent vector over arrival order; ALL n! vectors for every n <= %d new blocks, each once with equal "
+                "and once with block-to-block varying stated targets (un-mined blocks, "
                 "non-validating entry point), random vectors up to 60 blocks, and random histories of mined blocks through "
                 "the validating entry point, and long histories (120-400 blocks, and 1040-1300 blocks) with forks 3..H-1 blocks deep that overtake; "
                 "distinct = distinct parent vectors by digest; non-trivial = every vector "
                 "(ties/reorganisations counted separately)" % nmax,
-        "floors": [("histories", c.get("histories", 0), total), ("ties_observed", c.get("ties_observed", 0), 1000),
+        "floors": [("histories", c.get("histories", 0), 2 * total),
+                   ("histories_with_varying_targets", c.get("histories_with_varying_targets", 0), total), ("ties_observed", c.get("ties_observed", 0), 1000),
                    ("reorg_switches", c.get("reorg_switches", 0), 500), ("validated_adds", c.get("validated_adds", 0), 300),
                    ("long_histories", c.get("long_histories", 0), 20),
                    ("very_long_histories", c.get("very_long_histories", 0), 10)],
